@@ -37,3 +37,10 @@ def register(reg):
                            invariants=[('this-tx-once', f'{CUR} == h_in + ite(hx in _done, tx_numb, b"")')],
                            modifies=['self.unflushed'])},
         portfolio=True, props=['C02'])
+
+    # History.flush: the state record committed with the rows carries the count OF THIS FLUSH (a record one behind makes the
+    # next flush after a re-open reuse the id and overwrite these rows)
+    reg.contracts[HIST + '.flush'].ensures.append(
+        ('state-record-counts-this-flush',
+         'STATEKEY in self.db.g_map and lookup(self.db.g_map, STATEKEY) == '
+         'hstate(self.flush_count, self.comp_flush_count, self.comp_cursor, self.db_version, self.upgrade_cursor)'))
